@@ -30,6 +30,7 @@ import (
 	"github.com/chrislusf/seaweedfs/weed/filer/leveldb"
 	leveldb2 "github.com/chrislusf/seaweedfs/weed/filer/leveldb2"
 	leveldb3 "github.com/chrislusf/seaweedfs/weed/filer/leveldb3"
+	"github.com/chrislusf/seaweedfs/weed/pb"
 	"github.com/chrislusf/seaweedfs/weed/pb/filer_pb"
 	"github.com/chrislusf/seaweedfs/weed/pb/master_pb"
 	"github.com/chrislusf/seaweedfs/weed/pb/volume_server_pb"
@@ -426,7 +427,7 @@ func StartBlobMaster(r *Run) *BlobMaster {
 
 	ml, err := net.Listen("tcp", fmt.Sprintf("127.0.0.1:%d", mp+10000))
 	r.Must(err, "listen fake master")
-	ms := grpc.NewServer()
+	ms := pb.NewGrpcServer() // the real servers' keepalive settings: a plain grpc server drops the filer's KeepConnected stream after a few client pings
 	master_pb.RegisterSeaweedServer(ms, b)
 	go func() { _ = ms.Serve(ml) }()
 
@@ -437,7 +438,7 @@ func StartBlobMaster(r *Run) *BlobMaster {
 
 	vl, err := net.Listen("tcp", fmt.Sprintf("127.0.0.1:%d", bp+10000))
 	r.Must(err, "listen volume stub")
-	vs := grpc.NewServer()
+	vs := pb.NewGrpcServer()
 	volume_server_pb.RegisterVolumeServerServer(vs, &volStub{b: b})
 	go func() { _ = vs.Serve(vl) }()
 
@@ -571,6 +572,19 @@ func (w *FilerWorld) FreshStore() {
 	w.Store.SetInner(w.Raw)
 	old.Shutdown()
 	_ = os.RemoveAll(oldDir)
+}
+
+// MasterReady reports whether the filer's master client still knows the announced volume
+// (waits up to ~20 s for a reconnect). false means the harness side lost the KeepConnected
+// stream: manifest chunks cannot be resolved by the filer, which is not the filer's fault.
+func (w *FilerWorld) MasterReady() bool {
+	for i := 0; i < 4000; i++ {
+		if _, found := w.Filer.MasterClient.GetLocations(w.BM.Vid); found {
+			return true
+		}
+		time.Sleep(5 * time.Millisecond)
+	}
+	return false
 }
 
 // Close shuts the store down (the Filer's background goroutines stay; worlds are few).
